@@ -4,7 +4,9 @@ Model checking over registration histories: every sequence of <= L implementatio
 registry point (each bound to HostContext, HostArchiveContext, either, or reached through a
 helper datasource; each with an outcome), registered through the REAL SpecSet metaclass in
 several class layouts, evaluated under each active context and compared with the reference
-resolution rule.
+resolution rule.  Part "multi-point": histories over several specs whose implementations are bound
+to each other (to another registry point that gains contexts over time, or to an earlier
+implementation of the same spec), see multi_reference / multi_histories.
 """
 import itertools
 import os
@@ -23,14 +25,32 @@ LEVEL_TEXT = ("All registration sequences of <= 3 (quick) / <= 4 (thorough) impl
               "defines two specs of which the later one is bound to the other registry point - both alphabetical name orders) are registered with the real metaclass and evaluated under each active context. The value of the point, the "
               "set of implementation bodies executed, the value a consuming parser receives and the propagated flags are compared with the "
               "reference rule 'last registered implementation whose context set contains the active context, or nothing' - after the whole "
-              "history and, in one process on the same objects, after every registration prefix.")
+              "history and, in one process on the same objects, after every registration prefix. A fifth part enumerates histories over "
+              "SEVERAL specs bound to each other (layout multi-point): (i) point-growth - every interleaving of <= 2 context implementations of a "
+              "registry point b, 1..2 (thorough 3) implementations of a spec a bound to a context or to the registry point b, and <= 1 observing "
+              "spec c bound to the point a or b, so that a point gains contexts before / between / after the things bound to it are "
+              "registered; (ii) built-on-top - <= 3 (thorough 4) implementations of one spec of which later ones are bound directly, or through a "
+              "helper datasource, to an EARLIER implementation of the same spec; reference: an implementation bound to a point / an implementation is declared for the "
+              "contexts reachable through it, an overridden implementation is not executed (so whatever is built on it cannot yield) and "
+              "the spec is never filled from an implementation its handler overrides.")
 LEVEL_NOTE = ("Histories are enumerated completely up to L; the state after each history is the real dr/SpecSet registry state. Context-free "
               "implementations are outside the alphabet (the statement speaks of implementations declared for a context).")
 RULE = ("sequence of implementations (binding x outcome) x layout x active context; non-trivial = at least two implementations are declared "
         "for the active context (an override actually happens); states = distinct registration histories (prefix-closed), transitions = "
-        "implementation registrations performed, traces = complete evaluate-and-compare executions")
+        "implementation registrations performed, traces = complete evaluate-and-compare executions; multi-point part: sequence of "
+        "(spec, binding in context | registry point | earlier implementation | helper of an earlier implementation, outcome) x active "
+        "context, non-trivial = an override happens in a history that contains a point / implementation binding and is not 'ambiguous' "
+        "(a point gained the active context after an implementation bound to it was registered for a spec with several implementations: "
+        "the statement does not say whether that implementation is declared for the context; only 'dr.run returns' is demanded there)")
 ASSUMPTIONS = ["reference resolution rule as stated in the property"]
-BOUNDS = {"quick": {"max_impls": 3}, "thorough": {"max_impls": 4}}
+BOUNDS = {"quick": {"max_impls": 3,
+                    "multi_point": {"point_growth": "<=2 b-steps (distinct contexts, value) + 1..2 a-steps (A|B|point:b; last one value|skip) "
+                                                    "+ <=1 c-step (point:a|point:b), all interleavings, <=5 steps",
+                                    "built_on_top": "2..3 steps of one spec, A|B|AB|impl:j|via:j x value|skip, at least one impl/via binding"}},
+          "thorough": {"max_impls": 4,
+                       "multi_point": {"point_growth": "<=2 b-steps (A|B x value|skip) + 1..3 a-steps (A|B|point:b x value|skip) + <=1 c-step, "
+                                                       "all interleavings, <=5 steps",
+                                       "built_on_top": "2..4 steps of one spec, A|B|AB|impl:j|via:j x value|skip, at least one impl/via binding"}}}
 CAP_S = {"quick": 200, "thorough": 3600}
 
 BINDINGS = ["A", "B", "AB", "viaA", "viaB", "free"]
@@ -66,10 +86,16 @@ def units(tier, seed):
     for n in range(0, 3):
         for helper_name in ("aux", "zaux"):
             us.append({"layout": "same-body", "n": n, "helper_name": helper_name})
+    # histories over several specs bound to each other (registry point that grows / implementation built on an earlier one)
+    for family in ("point-growth", "built-on-top"):
+        for shard in range(MULTI_SHARDS):
+            us.append({"layout": "multi-point", "family": family, "shard": shard})
     return us
 
 
 def unit_weight(u):
+    if u["layout"] == "multi-point":
+        return 6
     return u["n"] + (2 if u["layout"] == "layered" else 0)
 
 
@@ -494,12 +520,296 @@ def run_same_body(unit, res):
     return res
 
 
+# ================================================================================================================
+# Histories over SEVERAL specs whose implementations are bound to each other ("or to other datasources" of the
+# quantifier): an implementation may be bound to a context, to ANOTHER REGISTRY POINT (it is then declared for every
+# context that point has an implementation for), directly to an EARLIER IMPLEMENTATION (of the same or of another spec)
+# or to a helper datasource bound to such an implementation.
+# ================================================================================================================
+_CS = {"A": {"A"}, "B": {"B"}, "AB": {"A", "B"}}
+MULTI_SPECS = ("a", "b", "c")
+
+
+def multi_reference(steps, active):
+    """steps = [[spec, dep, outcome], ...] in registration order, dep in A | B | AB | point:<spec> | impl:<j> | via:<j>.
+    Reference derived from the statement plus the one dr rule 'a component runs only if its dependency is there':
+      declared(k)   <=> the active context is among the contexts reachable through k's binding;
+      handler(s)     =  the last registered implementation of s that is declared for the active context;
+      overridden(k) <=> a later implementation of the same spec is declared for the active context -> NOT executed at all;
+      runs(k)       <=> not overridden(k) and its binding is available (context active / bound point present / bound
+                        implementation yielded);   yields(k) <=> runs(k) and its outcome is a value;
+      present(s)    <=> handler(s) yields  (never filled from an implementation the handler overrides).
+    Weaker reading where the statement is silent: an implementation bound to a registry point that gains the active
+    context only AFTER that implementation was registered ("declared for" then or now?) makes the case `ambiguous`
+    when its spec has further implementations - nothing but 'dr.run returns' is demanded of such a case."""
+    n = len(steps)
+
+    def ctx(k, m, seen=()):
+        if k in seen:
+            raise ValueError("cyclic binding in case descriptor")
+        dep = steps[k][1]
+        if dep in _CS:
+            return set(_CS[dep])
+        kind, _, arg = dep.partition(":")
+        if kind == "point":
+            out = set()
+            for j in range(m):
+                if steps[j][0] == arg:
+                    out |= ctx(j, m, seen + (k,))
+            return out
+        if int(arg) >= k:
+            raise ValueError("binding to a later implementation in case descriptor")
+        return ctx(int(arg), m, seen + (k,))
+    ctx_reg = [ctx(k, k) for k in range(n)]
+    ctx_end = [ctx(k, n) for k in range(n)]
+    count = {}
+    for s, _, _ in steps:
+        count[s] = count.get(s, 0) + 1
+    ambiguous = any(count[steps[k][0]] >= 2 and active in ctx_end[k] - ctx_reg[k] for k in range(n))
+    declared = [active in ctx_end[k] for k in range(n)]
+    overridden = [any(steps[j][0] == steps[k][0] and declared[j] for j in range(k + 1, n)) for k in range(n)]
+    handler = {}
+    for k in range(n):
+        if declared[k]:
+            handler[steps[k][0]] = k
+    memo = {}
+
+    def runs(k):
+        if k not in memo:
+            dep = steps[k][1]
+            if overridden[k]:
+                memo[k] = False
+            elif dep in _CS:
+                memo[k] = active in _CS[dep]
+            elif dep.startswith("point:"):
+                h = handler.get(dep[6:])
+                memo[k] = h is not None and yields(h)
+            else:
+                memo[k] = yields(int(dep.partition(":")[2]))
+        return memo[k]
+
+    def yields(k):
+        return runs(k) and steps[k][2] == "value"
+    runs_ = [runs(k) for k in range(n)]
+    # second formulation (cross-check of the model): only a handler can ever run
+    for k in range(n):
+        if runs_[k] and handler.get(steps[k][0]) != k:
+            raise AssertionError("reference model inconsistent: non-handler %d runs" % k)
+        if runs_[k] and not declared[k]:
+            raise AssertionError("reference model inconsistent: undeclared %d runs" % k)
+    present = {s: (s in handler and yields(handler[s])) for s in MULTI_SPECS}
+    return {"ambiguous": ambiguous, "declared": declared, "overridden": overridden, "handler": handler, "runs": runs_,
+            "present": present}
+
+
+def check_multi_case(case):
+    """case = {"layout": "multi-point", "steps": [[spec, dep, outcome], ...], "active": "A"|"B"}; one class per step."""
+    from insights.core import dr, plugins
+    from insights.core.context import HostContext, HostArchiveContext
+    from insights.core.exceptions import SkipComponent
+    from insights.core.spec_factory import RegistryPoint, SpecSet, SpecSetMeta
+    from insights.core.plugins import datasource
+    from harness import graphs as G
+    from harness.tmp import scratch
+
+    CTX = {"A": HostContext, "B": HostArchiveContext}
+    _counter[0] += 1
+    tag = "c05m_%d" % _counter[0]
+    steps, active = [list(s) for s in case["steps"]], case["active"]
+    ref = multi_reference(steps, active)
+    log, created = [], []
+    got = dict((s, []) for s in MULTI_SPECS)
+    with scratch("c05") as root:
+        try:
+            points = dict((s, RegistryPoint()) for s in MULTI_SPECS)
+            created += list(points.values())
+            Base = SpecSetMeta(tag + "_Base", (SpecSet,), dict(points, __module__=G.MODNAME))
+            consumers = []
+            for s in MULTI_SPECS:
+                def consumer(v, _s=s):
+                    got[_s].append(v)
+                    return ("parsed", v)
+                consumer.__name__ = "%s_consumer_%s" % (tag, s)
+                consumer.__module__ = G.MODNAME
+                plugins.parser(points[s])(consumer)
+                created.append(consumer)
+                consumers.append(consumer)
+            impl_objs = []
+            for k, (s, dep, outcome) in enumerate(steps):
+                def body(broker, _k=k, _o=outcome):
+                    log.append(_k)
+                    if _o == "value":
+                        return "value-%d" % _k
+                    raise SkipComponent("skip %d" % _k)
+                body.__name__ = "%s_body%d" % (tag, k)
+                body.__module__ = G.MODNAME
+                if dep in ("A", "B"):
+                    on = CTX[dep]
+                elif dep == "AB":
+                    on = [HostContext, HostArchiveContext]
+                elif dep.startswith("point:"):
+                    on = getattr(Base, dep[6:])
+                elif dep.startswith("impl:"):
+                    on = impl_objs[int(dep[5:])]
+                else:
+                    def helper(broker, _k=k):
+                        log.append("helper-%d" % _k)
+                        return "helper-%d" % _k
+                    helper.__name__ = "%s_helper%d" % (tag, k)
+                    helper.__module__ = G.MODNAME
+                    on = datasource(impl_objs[int(dep[4:])])(helper)
+                    created.append(on)
+                ds = datasource(on)(body)
+                created.append(ds)
+                impl_objs.append(ds)
+                SpecSetMeta("%s_Impl%d" % (tag, k), (Base,), {s: ds, "__module__": G.MODNAME})
+            broker = dr.Broker()
+            broker[CTX[active]] = CTX[active](root=root)
+            graph = {}
+            for c in consumers:
+                graph.update(dr.get_dependency_graph(c))
+            try:
+                dr.run(graph, broker)
+            except Exception as ex:
+                return [("run:raises", "dr.run returns", repr(ex), {})]
+            vio = []
+            feats = {"layout": "multi-point", "bindings": sorted(set(d.partition(":")[0] for _, d, _ in steps))}
+            case["_outcome"] = "ambiguous" if ref["ambiguous"] else "present=%s:bodies-run=%d" % (
+                "".join(s for s in MULTI_SPECS if ref["present"][s]) or "-", sum(ref["runs"]))
+            if ref["ambiguous"]:
+                return vio
+            for s in MULTI_SPECS:
+                h = ref["handler"].get(s)
+                own = "value-%d" % h if h is not None and steps[h][2] == "value" else None
+                if own is not None and not ref["present"][s]:
+                    # the handler would yield, but by the reference its own binding is unavailable (e.g. it is built on the
+                    # implementation it overrides, which is not executed): the statement only excludes that the spec is
+                    # filled from ANOTHER implementation - absent, or the handler's own value, are both accepted
+                    if points[s] in broker and broker[points[s]] != own:
+                        vio.append(("resolution:absent-when-handler-yields-nothing", {"spec": s, "handler": h, "absent_or": own},
+                                    {"value": broker[points[s]]}, feats))
+                    if got[s] not in ([], [own]):
+                        vio.append(("resolution:parser-not-fed", {"spec": s, "fed": [], "or": [own]}, {"spec": s, "fed": list(got[s])}, feats))
+                elif ref["present"][s]:
+                    ev = "value-%d" % h
+                    if points[s] not in broker or broker[points[s]] != ev:
+                        vio.append(("resolution:handler-value-supplied", {"spec": s, "handler": h, "value": ev},
+                                    {"value": broker.get(points[s]), "present": points[s] in broker}, feats))
+                    if got[s] != [ev]:
+                        vio.append(("resolution:parser-receives-handler-value", {"spec": s, "fed": [ev]}, {"spec": s, "fed": list(got[s])}, feats))
+                else:
+                    if points[s] in broker:
+                        vio.append(("resolution:absent-when-handler-yields-nothing", {"spec": s, "handler": h, "absent": True},
+                                    {"value": broker[points[s]]}, feats))
+                    if got[s]:
+                        vio.append(("resolution:parser-not-fed", {"spec": s, "fed": []}, {"spec": s, "fed": list(got[s])}, feats))
+            for k in range(len(steps)):
+                n = log.count(k)
+                if ref["runs"][k]:
+                    if n != 1:
+                        vio.append(("execution:handler-runs-once", {"impl": k, "runs": 1}, {"impl": k, "runs": n}, feats))
+                elif ref["overridden"][k]:
+                    if n != 0:
+                        vio.append(("execution:overridden-implementation-not-run", {"impl": k, "runs": 0}, {"impl": k, "runs": n}, feats))
+                elif not ref["declared"][k]:
+                    if n != 0:
+                        vio.append(("execution:other-context-implementation-not-run", {"impl": k, "runs": 0}, {"impl": k, "runs": n}, feats))
+                # a handler whose own binding is unavailable: nothing is claimed about its execution (dr semantics, not C05)
+            return vio
+        finally:
+            G.cleanup_components(created)
+            for ctx in (HostContext, HostArchiveContext):
+                s = dr.DEPENDENTS.get(ctx)
+                if s is not None:
+                    s.difference_update(created)
+
+
+def multi_histories(family, tier):
+    """Two exhaustive families of multi-spec histories (each a list of [spec, dep, outcome]):
+    point-growth  - a registry point `b` gains context implementations over time while implementations of `a` (bound to a
+                    context or to the point b) and one observing spec `c` (bound to the point a or b) are registered in
+                    between: every interleaving of <= NB b-steps, 1..NA a-steps and <= 1 c-step;
+    built-on-top  - implementations of ONE spec of which later ones may be bound directly, or through a helper datasource,
+                    to an earlier implementation of the same spec."""
+    thorough = tier == "thorough"
+    if family == "point-growth":
+        nb_max, na_max, n_max = (2, 3, 5) if thorough else (2, 2, 5)
+        b_opts = [["b", d, o] for d in ("A", "B") for o in (("value", "skip") if thorough else ("value",))]
+        c_opts = [["c", "point:a", "value"], ["c", "point:b", "value"]]
+
+        def a_opts(is_last):
+            # quick: only the LAST implementation of `a` varies its outcome (the earlier ones yield - they are what a
+            # wrong fall-back would expose); thorough: every outcome
+            outs = ("value", "skip") if (is_last or thorough) else ("value",)
+            return [["a", d, o] for d in ("A", "B", "point:b") for o in outs]
+        for nb in range(0, nb_max + 1):
+            for na in range(1, na_max + 1):
+                for nc in (0, 1):
+                    if nb + na + nc > n_max:
+                        continue
+                    for order in sorted(set(itertools.permutations("b" * nb + "a" * na + "c" * nc))):
+                        pools, seen_a = [], 0
+                        for s in order:
+                            if s == "a":
+                                seen_a += 1
+                                pools.append(a_opts(seen_a == na))
+                            else:
+                                pools.append(b_opts if s == "b" else c_opts)
+                        for steps in itertools.product(*pools):
+                            if not thorough and len(set(x[1] for x in steps if x[0] == "b")) < nb:
+                                continue      # quick: the point b gains DISTINCT contexts (overrides within b: main part)
+                            yield [list(x) for x in steps]
+    else:
+        n_max = 4 if thorough else 3
+        for n in range(2, n_max + 1):
+            pools = []
+            for k in range(n):
+                deps = ["A", "B", "AB"] + ["impl:%d" % j for j in range(k)] + ["via:%d" % j for j in range(k)]
+                pools.append([["a", d, o] for d in deps for o in ("value", "skip")])
+            for steps in itertools.product(*pools):
+                if any(":" in s[1] for s in steps):           # context-only histories are the main part's business
+                    yield [list(x) for x in steps]
+
+
+MULTI_SHARDS = 8
+
+
+def run_multi(unit, tier, res):
+    longest = 0
+    for i, steps in enumerate(multi_histories(unit["family"], tier)):
+        if i % MULTI_SHARDS != unit["shard"]:
+            continue
+        longest = max(longest, len(steps))
+        for active in ("A", "B"):
+            case = {"layout": "multi-point", "steps": steps, "active": active}
+            try:
+                vio = check_multi_case(case)
+                ref = multi_reference(steps, active)
+                # measured: an override really happens in a history that contains a binding to a point / an implementation
+                nontrivial = (not ref["ambiguous"]) and any(ref["overridden"]) and any(":" in s[1] for s in steps)
+            except Exception:
+                import traceback
+                vio = [("harness:raises", "no exception", traceback.format_exc()[-900:], {})]
+                nontrivial = False
+            oc = case.pop("_outcome", "?")
+            res.case(nontrivial=nontrivial, outcome="multi-point|" + (",".join(sorted(set(v[0] for v in vio))) or "ok") + "|" + oc,
+                     sample=case if res.evals % 400 == 5 else None)
+            res.transitions += len(steps)
+            res.traces += 1
+            for v in vio:
+                res.violation(v[0], case, v[1], v[2], v[3])
+    res.maxi("max_history_length", longest)
+    return res
+
+
 def run_unit(unit, tier):
     res = Result()
     if unit["layout"] == "layered":
         return run_layered(unit, res)
     if unit["layout"] == "same-body":
         return run_same_body(unit, res)
+    if unit["layout"] == "multi-point":
+        return run_multi(unit, tier, res)
     alpha = impl_alphabet()
     n = unit["n"]
     fixed = [alpha[unit["first"]]]
@@ -538,6 +848,8 @@ def run_unit(unit, tier):
 
 
 def replay(case):
+    if case.get("layout") == "multi-point":
+        return [{"clause": v[0], "case": case, "expected": v[1], "observed": v[2], "features": v[3]} for v in check_multi_case(case)]
     if case.get("layout") == "same-body":
         return [{"clause": v[0], "case": case, "expected": v[1], "observed": v[2], "features": v[3]} for v in check_body_case(case)]
     return [{"clause": v[0], "case": case, "expected": v[1], "observed": v[2], "features": v[3]} for v in check_case(case)]
